@@ -349,6 +349,52 @@ def namebound(run, fx):
         run.broken('VALIDATOR', inst, 'no constructor of NameTable sets m_nameData = table + offset and m_nameDataLength', '')
 
 
+def platrange_exec(run, fx, rule='VALIDATOR'):
+    """NameTable::getName walks name_record[m_platformOffset .. m_platformLastRecord] inclusive; the constructor only vouches for
+    `count` records.  NameTable::setPlatformEncoding is interpreted (rules/ordint.py; be::swap as the identity on abstract cells) on
+    every name table of 1..3 records whose (platform, encoding) pairs are drawn from {(3,1), (1,0)}, asked for (3,1): afterwards both
+    indices are below count -- with no matching record included."""
+    import itertools
+    from . import ordint as O
+    fn = fx.one('graphite2::NameTable::setPlatformEncoding')
+    PN = 'graphite2::NameTable::'
+    PF, PR = 'graphite2::TtfUtil::Sfnt::FontNames::', 'graphite2::TtfUtil::Sfnt::NameRecord::'
+    nrec = fx.record('graphite2::NameTable')
+    inst = 'the record range getName walks lies inside the record array (setPlatformEncoding interpreted)'
+    cases = 0
+    try:
+        for count in (1, 2, 3):
+            for kinds in itertools.product(((3, 1), (1, 0)), repeat=count):
+                recs = O.Vec([O.Rec({PR + 'platform_id': p_, PR + 'platform_specific_id': e_, PR + 'language_id': 0x409, PR + 'name_id': 256 + k_, PR + 'length': 2, PR + 'offset': 0})
+                              for k_, (p_, e_) in enumerate(kinds)])
+                tab = O.Rec({PF + 'format': 0, PF + 'count': count, PF + 'string_offset': 6 + 12 * count, PF + 'name_record': O.It(recs, 0)})
+                nt = O.Rec()
+                for f in nrec['fields']:
+                    nt[PN + f['n']] = O.Ptr(None) if f.get('ptr') else 0
+                nt[PN + 'm_table'] = O.Ptr(tab)
+                nt[PN + 'm_nameData'] = O.It(O.Vec([0] * 8), 0)
+                it = O.Interp(fx)
+                it.MAX_STEPS = 4000
+                cases += 1
+                desc = 'a name table whose %d record(s) are for (platform, encoding) %s, asked for (3, 1)' % (count, list(kinds))
+                try:
+                    it.call(fn, nt, [3, 1])
+                except O.Violation as v:
+                    run.violated(rule, inst, fn.where(), '%s: %s (%s)' % (desc, v.what, v.loc))
+                    return
+                lo, hi = nt[PN + 'm_platformOffset'], nt[PN + 'm_platformLastRecord']
+                if not (isinstance(lo, int) and isinstance(hi, int)):
+                    raise AnalysisBroken('m_platformOffset / m_platformLastRecord are %r / %r' % (lo, hi))
+                if lo >= count or hi >= count:
+                    run.violated(rule, inst, fn.where(), '%s: afterwards m_platformOffset = %d and m_platformLastRecord = %d: NameTable::getName compares name_record[%d], which lies behind the %d '
+                                 'record(s) the table holds (gr_fref_label on a face that loaded without complaint)' % (desc, lo, hi, max(lo, hi), count))
+                    return
+    except AnalysisBroken as ex:
+        run.broken(rule, inst, str(ex), fn.where())
+        return
+    run.held(rule, inst, fn.where(), '%d tables' % cases)
+
+
 def checkafteruse(run, fx):
     """contradiction rule (Engler et al.): a parser that rejects on a test of an index or count has no business using that index before
     the test.  In every function of the validator inventory, no table element `base[.. v ..]` is read at a point that dominates a
@@ -655,6 +701,9 @@ def run(run):
     checkafteruse(run, fx)
     extentfirst(run, fx)
     namebound(run, fx)
+    platrange_exec(run, fx)
+    from . import c16 as c16o_
+    c16o_.opscopy_exec(run, fx, 'VALIDATOR')        # Face::Face reads no further into the caller's gr_face_ops than its size member says (shared with C16)
     from . import c13
     c13.narrowread(run, fx)
     validators.check(run, fx, 'VALIDATOR')
